@@ -596,3 +596,13 @@ package dnssec
 //@   assert at return#1: result0 == nil && result1 != nil
 //@   assert at return#2: result0 == nil && result1 != nil
 //@   assert at return#3: result1 == nil
+//@
+//@ # ---- C02 (RFC 8198): NODATA is synthesised from an exact-owner bitmap only when the bitmap lists NEITHER the query
+//@ # type itself NOR CNAME - for every query type, DS included (a DS bit at a delegation point means the DS exists) -
+//@ # and the owner is on the right side of the cut for the type (DS: not the child apex; other types: not a delegation)
+//@ func validateAggressiveExactNODATA
+//@   abstract
+//@   nosafety all pre
+//@   assert at call middleware/resolver/dnssec.typesSet#1: arg0 == bitmap && len(arg1) == 2 && arg1[0] == qtype && arg1[1] == dns.TypeCNAME && calls("middleware/resolver/dnssec.typesSet") == 0
+//@   assert at return#1: result != nil && lastret("middleware/resolver/dnssec.typesSet#1")
+//@   assert at return#4: result == nil && !lastret("middleware/resolver/dnssec.typesSet#1")
